@@ -12,7 +12,8 @@ import random
 import sys
 
 from . import modelgen as mg
-from .seams import (Sim, SimClock, SimFile, instrument_tabulation, FAULT_KINDS, fp_bytes, HarnessError)
+from .seams import (Sim, SimClock, SimFile, RewindableSimFile, SeekLiarSimFile, WriteOnlySimFile, instrument_tabulation,
+                    FAULT_KINDS, fp_bytes, HarnessError)
 from .util import sha, mix64, short
 
 PROP = "C17"
@@ -53,11 +54,12 @@ def gen_base_scenario(seed, tier="quick"):
     if rng.random() < 0.22 and not big and not medium:
         from . import apimodel
         spec = apimodel.gen_api_model(rng, natural=natural, tier=tier)
-        return {"property": PROP, "seed": seed, "tier": tier, "potsim": 1, "model": spec, "route": "api",
+        sc_api = {"property": PROP, "seed": seed, "tier": tier, "potsim": 1, "model": spec, "route": "api",
                 "fp_kind": rng.choice(["simfile", "simfile", "stdio", "realfile"]), "shared_fp": rng.random() < 0.25,
                 "prepopulate": False, "cli_target_override": False,
                 "instrument": True if not natural else rng.random() < 0.6,
                 "natural": bool(spec["meta"]["natural_fault"]), "subprocess_cli": False, "attempts": [{"k": None}]}
+        return _other_destinations(sc_api, seed)
     spec = mg.gen_model(rng, opts)
     target = spec["meta"]["target"]
     r = rng.random()
@@ -88,6 +90,22 @@ def gen_base_scenario(seed, tier="quick"):
     if medium:
         sc["big"] = True
         sc["medium"] = True
+    return _other_destinations(sc, seed)
+
+
+OTHER_FP_KINDS = ["gzip", "seekliar", "rewindable", "writeonly"]
+
+
+def _other_destinations(sc, seed):
+    """15 % of the text-target scenarios that call write(fp) get a destination with other capabilities: a real
+    gzip text stream, a stream that claims to be seekable but cannot be wound back, one that honestly can, one
+    that offers write() only.  Drawn from a side stream (the other choices of the scenario are unchanged)."""
+    side = random.Random(mix64(seed, "c17-destinations"))
+    if sc["route"] == "cli" or sc["model"]["meta"]["binary"] or side.random() >= 0.15:
+        return sc
+    sc["fp_kind"] = side.choice(OTHER_FP_KINDS)
+    if sc["fp_kind"] == "gzip":
+        sc["shared_fp"] = False
     return sc
 
 
@@ -97,6 +115,8 @@ def plan_for_k(base, k, N):
     rng = random.Random(mix64(base["seed"], "plan", k))
     sc = copy.deepcopy(base)
     kind = rng.choice(FAULT_KINDS)
+    if random.Random(mix64(base["seed"], "bad-value", k)).random() < 0.12:
+        kind = "returns-complex"     # side stream: the evaluation returns a non-real value instead of raising
     attempts = [{"k": k, "kind": kind}]
     if base["model"]["meta"]["binary"] and base["route"] in ("object", "api") and rng.random() < 0.3:
         attempts[0]["op"] = "touch"          # the failing evaluation happens while reading .workbook
@@ -244,11 +264,20 @@ def _exec_object(sc, sim, ini, scratch, attempts, out, binary):
             fp = tab.open_fp(path)
         elif fp_kind == "stdio":
             fp = io.BytesIO() if binary else io.StringIO()
+        elif fp_kind == "gzip":
+            import gzip
+            fp = gzip.open(path, "wt", encoding="utf-8", newline="")
+        elif fp_kind == "seekliar":
+            fp = SeekLiarSimFile(sim, binary=binary, name="fp%d" % i)
+        elif fp_kind == "rewindable":
+            fp = RewindableSimFile(sim, binary=binary, name="fp%d" % i)
+        elif fp_kind == "writeonly":
+            fp = WriteOnlySimFile(SimFile(sim, binary=binary, name="fp%d" % i))
         else:
             fp = SimFile(sim, binary=binary, name="fp%d" % i)
         if sc.get("shared_fp"):
             shared = fp
-        before = _current_bytes(fp, fp_kind, path)
+        before = b"" if fp_kind == "gzip" else _current_bytes(fp, fp_kind, path)
         try:
             if sc["route"] == "writePotentials":
                 ot = {"LAMMPS": "LAMMPS", "DLPOLY": "DL_POLY", "GULP": "GULP"}[sc["model"]["meta"]["target"]]
@@ -258,7 +287,16 @@ def _exec_object(sc, sim, ini, scratch, attempts, out, binary):
         except Exception as e:
             rec["raised"] = type(e).__name__
             rec["message"] = str(e)[:200]
-        after = _current_bytes(fp, fp_kind, path)
+        if fp_kind == "gzip":
+            import gzip
+            try:
+                fp.close()
+            except Exception:
+                pass
+            with gzip.open(path, "rb") as gz:
+                after = gz.read()
+        else:
+            after = _current_bytes(fp, fp_kind, path)
         if fp_kind == "realfile" and not sc.get("shared_fp"):
             fp.close()
             after = _current_bytes(fp, fp_kind, path)
@@ -423,6 +461,10 @@ def judge(sc, ref, res):
             fired = failed          # a formula failing by itself is seen through the failure only
             site = (meta.get("natural_fault") or {}).get("section", "unknown")
         where = "%s/site=%s" % (base_cls, site)
+        if fired and not natural and not failed and r["fired"][0][3] == "returns-complex":
+            # a returned non-real value is a failure only if the writer could not use it; where it could
+            # (nothing raised) no evaluation failed and the statement says nothing about this attempt
+            continue
         if r.get("touch"):
             if failed and not fired:
                 v.append({"class": "C17/failure-without-fault/" + where, "attempt": i,
@@ -681,6 +723,12 @@ def run_job(job):
                 any_fired = True
                 bump("fired:" + f[3])
                 bump("site=" + site_of(f[4]))
+                if f[3] == "returns-complex":
+                    bump("probe:evaluation-returns-non-real-value")
+                    if r["raised"] is None and r["exit"] in (None, 0):
+                        bump("non-real-value-accepted-by-writer(no failure)")
+                if sc.get("fp_kind") in OTHER_FP_KINDS:
+                    bump("probe:fault-with-destination=" + sc["fp_kind"])
                 pos = "first" if f[2] == 1 else ("last" if f[2] == N else ("boundary" if f[2] in boundaries else "interior"))
                 bump("state:%s|%s|%s|%s|attempt%d-of-%d%s" % (meta["target"], sc["route"], site_of(f[4]), pos,
                                                               res["attempts"].index(r) + 1, len(res["attempts"]), "|touch" if r.get("touch") else ""))
@@ -921,7 +969,7 @@ COMPONENTS = {
                   "sys.argv / stdout / stderr of potable", "evaluation failures (EvalPoint wrappers on the model functions)"],
     "stubbed": [],
 }
-EXPECTED_PROBES = ["medium-table-model", "large-table-model", "fault-at-first-evaluation", "fault-at-last-evaluation", "fault-at-block-boundary", "fault-in-derivative-evaluation",
+EXPECTED_PROBES = ["evaluation-returns-non-real-value", "fault-with-destination=gzip", "fault-with-destination=seekliar", "fault-with-destination=rewindable", "fault-with-destination=writeonly", "medium-table-model", "large-table-model", "fault-at-first-evaluation", "fault-at-last-evaluation", "fault-at-block-boundary", "fault-in-derivative-evaluation",
                    "fault-while-reading-workbook", "retry-after-failed-attempt", "retry-after-failed-excel-write", "shared-fp-across-attempts"]
 WALL_CAP = {"quick": 240.0, "thorough": 3300.0}
 STATE_MEASURE = "distinct (target or writer, route, site of the failing function, position class first/last/block-boundary/interior, attempt index within the retry plan, via .workbook or write) combinations in which a fault fired"
